@@ -50,9 +50,14 @@ def by_hand(adapter, d, X):
         for key in sorted(d.sensors):
             m = len(d.sensors[key])
             z, rest = rest[:m], rest[m:]
-            st, cv = ekf.sensor_model(st, cv, sensor_key=key, sensor_reading=ekf.make_reading(key, data=np.array(z, dtype=float).reshape((m, 1))))
-            y = ekf.innovations[key]
-            S = ekf.sensor_prediction_uncertainty[key]
+            zc = np.array(z, dtype=float).reshape((m, 1))
+            # innovation and innovation covariance of THIS reading, computed from the filter's parts (not read from what the
+            # filter happens to have recorded): z - h(x), H P H^T + R at the estimate before the update
+            y = zc - np.asarray(ekf.sensor_models[key].model(st).data, dtype=float).reshape((m, 1))
+            Hm = np.asarray(ekf.sensor_jacobian(key, st), dtype=float)
+            Rm = np.asarray(getattr(ekf.sensor_noises[key], "data", ekf.sensor_noises[key]), dtype=float)
+            S = Hm @ np.asarray(cv.data, dtype=float) @ Hm.T + Rm
+            st, cv = ekf.sensor_model(st, cv, sensor_key=key, sensor_reading=ekf.make_reading(key, data=zc))
             nis_row.append(float((y.T @ np.linalg.inv(S) @ y).item()))
         out.append(nis_row)
     return out
@@ -115,6 +120,21 @@ def run(ctx):
         if any(after[kk] is not before[kk] for kk in before) or \
                 copy.deepcopy({kk: vv for kk, vv in after.items() if kk != "symbolic_model"}) != deep_before:
             ctx.fail("adapter-mutates-params", "transform/mahalanobis/score changed the estimator's parameters", case)
+        # "any data matrix": the same numbers given as an integer array or as nested lists of Python ints are the same data
+        try:
+            Xi = np.array([[ctx.rng.randint(-3, 3) for _ in range(Xf.shape[1])] for _ in range(min(3, Xf.shape[0]))], dtype=np.int64)
+            with fk.quiet():
+                Ti = np.asarray(ad.transform(Xi), dtype=float)
+                Tl = np.asarray(ad.transform(Xi.tolist()), dtype=float)
+                Tr = np.asarray(ad.transform(Xi.astype(float)), dtype=float)
+            ctx.case(dict(case, integer_matrix=Xi.tolist()), True); ctx.count("stream=integer-data-matrix")
+            for label, Tx in (("an int64 array", Ti), ("nested lists of ints", Tl)):
+                if Tx.shape != Tr.shape or float(np.max(np.abs(Tx - Tr))) > 1e-9 * (1 + float(np.max(np.abs(Tr)))):
+                    ctx.fail("transform-depends-on-dtype", f"transform of {label} gives {Tx.tolist()}, the same numbers as floats give {Tr.tolist()}",
+                             dict(case, integer_matrix=Xi.tolist()))
+                    break
+        except Exception as e:
+            ctx.fail(f"adapter-raises:{fk.exc_kind(e)}:integer-matrix", f"transform of an integer data matrix raises {e!r}"[:300], case)
         # one estimator re-used across parameter changes: what transform returns must follow the *current* parameters
         try:
             from formak import python as _fp
